@@ -1,10 +1,10 @@
 package main
 
 import (
-	"math/rand"
 	"bytes"
-	"net"
 	"fmt"
+	"math/rand"
+	"net"
 	"sync/atomic"
 	"time"
 
